@@ -197,6 +197,10 @@ func checkC08(c *Ctx) {
 	c.checkDelIdRecorded()
 	c.checkCachedMapsNotMutatedInPlace()
 	c.checkReaderRowUnderChannelName()
+	c.checkCachedTagsAreStoredTags()
+	c.checkLoaderCachesEveryRow()
+	// the loaded topic and the offline paths decide ownership alike: on want & given
+	c.R.Scoped(func(rule, construct string) bool { return strings.HasPrefix(construct, "IsOwner()") }, c.checkIntersect)
 	c.checkP2PRecordsAgree()
 	c.checkUpdateKeysIndependent()
 	c.checkLocalCopyWrittenBack("C08.3c-local-copy-written-back", nil)
